@@ -142,7 +142,8 @@ class Env:
         rec.ev(w, "prestart" if pre else "start", t=cls, uid=uid, u=int(m.group(1)) if m else 0, vt=round(loop.time(), 3),
                gets=gets, own=(node.params.get("nets", "") == w), nets=node.params.get("nets", ""),
                scope=node.params.get("pool_scope", ""), srcw=sorted({k2[len("nets_host_"):] for k2 in node.params if k2.startswith("nets_host_")}),
-               name=name, has_unknown=("UNKNOWN" in [r["status"] for r in node.results]))
+               name=name, has_unknown=("UNKNOWN" in [r["status"] for r in node.results]),
+               vms=node.params.get("vms", ""), vm_action=node.params.get("vm_action", ""), marker=node.params.get("verif_marker", ""))
         await asyncio.sleep(dur)
         sets = ["%s:%s" % (okey, s) for okey, s, _, _ in node_states(node, "set")]
         if status in ("PASS", "WARN"):
